@@ -6,6 +6,7 @@ import evalx
 import order
 from order import nocast, key
 import C03
+import codecrules
 
 TECHNIQUE = ("table agreement of extracted constants with a frozen RFC/IANA table (header bit layout, OPT TTL overloading evaluated exactly over the 32 "
              "single-bit inputs of the extracted expression trees, enumerator values), must-set typestate of every declared key on every success path "
@@ -694,4 +695,6 @@ def run(prog, R, tier):
     r_keymap(prog, R)
     r_escape(prog, R)
     r_reject(prog, R)
+    codecrules.r_limit(prog, R, "R-C04-LIMIT")
+    codecrules.r_pure(prog, R, "R-C04-PURE")
     r_zerolen(prog, R)
